@@ -208,7 +208,7 @@ class A(Adapter):
         import wave3_routing as w3
 
         # wave 4 (C01; runs inside the C09 / C12 sweeps): the declared specs of the configured observer against the model's obsSpec /
-        # actionSpec / reward / discount spec (lbf.spec — incl. the grid observer's agents_view leaf, too large for Gen/Specs.lean), the
+        # actionSpec / reward / discount spec (lbf.spec — incl. the grid observer's agents_view leaf, for every adapter configuration), the
         # reset timestep, the observation arrays against `toNValue`, observation_spec.validate against (obsSpec cfg A F L).valid and
         # the invariant SpecInv of the membership theorems on every implementation state of a few episodes incl. the terminal one
         # (theorems lbf_obsSpec_generated, lbf_*_obs_valid, lbf_specInv_invariant)
